@@ -76,9 +76,10 @@ def _rc_get(img, base, idx, width):
     return (img[base + idx // per] >> ((idx % per) * width)) & ((1 << width) - 1)
 
 
-def _header_bytes(version, ext_list, backing_file, cs):
+def _header_bytes(version, ext_list, backing_file, cs, short_header=False):
     """Extension area + backing name; returns (tail_bytes, backing_off, backing_len, hdr_len)."""
-    hdr_len = 72 if version == 2 else 112
+    # version 3 headers are 104 bytes (QEMU before 5.1) or 112 bytes (with the compression type field)
+    hdr_len = 72 if version == 2 else (104 if short_header else 112)
     ext = bytearray()
     for typ, data in ext_list:
         data = bytes(data)
@@ -114,7 +115,7 @@ def build(desc):
     per_block = cs * 8 // width
     shuffle = desc.shuffle_seed is not None
     rng = random.Random(desc.shuffle_seed if shuffle else 0)   # only consulted when shuffling
-    tail, boff, blen, hdr_len = _header_bytes(v, desc.extensions, desc.backing_file, cs)
+    tail, boff, blen, hdr_len = _header_bytes(v, desc.extensions, desc.backing_file, cs, getattr(desc, 'short_header', False))
 
     # ---- guest side ------------------------------------------------------
     content, comp = {}, []
@@ -226,7 +227,7 @@ def build(desc):
     hdr = struct.pack(HDR_FMT, MAGIC, v, boff, blen, cb, size, 0, l1_size, l1_off,
                       rt_off, rt_clusters, 0, 0)
     if v == 3:
-        hdr += struct.pack('>QQQII', 0, 0, 0, ro, hdr_len) + bytes(8)   # compression type 0 + pad
+        hdr += struct.pack('>QQQII', 0, 0, 0, ro, hdr_len) + bytes(hdr_len - 104)   # compression type 0 + pad (112-byte form)
     img[0:len(hdr) + len(tail)] = hdr + tail
     mapping = {}
     for gc in sorted(desc.clusters):
